@@ -34,7 +34,8 @@ TOL = 1e-10
 
 
 def BOUNDS(tier):
-    return {"depth": 3 if tier == "thorough" else 2, "state_cap_per_generator": 6000 if tier == "thorough" else 800}
+    return {"depth": 3 if tier == "thorough" else 2, "state_cap_per_generator": 6000 if tier == "thorough" else 800,
+            "merge_decimals": [None, 0, 1, 2, 8], "revolve": "scalar angles, angle arrays (4 / 16 / 13 closed), axis 0 and 1"}
 
 
 # ----------------------------------------------------------------------------- measuring
